@@ -89,6 +89,11 @@ def rand_spec(rnd, tier="quick", zones=None, jobless_ok=True, server_types=("aut
         O["upi"] = obj("UsagePattern", usage_journey=["ref", "uji"], network=["ref", "ni"], country=["ref", "c0"], devices=["refs", ["d0"]],
                        hourly_usage_journey_starts=["h", [rnd.choice(START_VALUES[2:]) for _ in range(9)], rnd.choice(STARTS), "dimensionless"])
         ups_.append("upi")
+    if rnd.random() < 0.3:
+        # draft jobs: created on a server of the model for later use, called by no step yet
+        for k in range(rnd.randint(1, 3)):
+            O[f"jd{k}"] = obj("Job", server=["ref", rnd.choice([n for n in O if O[n]["cls"] == "Server"])], request_duration=q(rnd.choice([2, 90, 4000]), "s"),
+                              data_stored=q(rnd.choice([0, 137]), "kB"))
     O["system"] = {"cls": "System", "params": {"usage_patterns": ["refs", ups_]}}
     return prune({"objects": O, "system": "system"})
 
@@ -191,6 +196,8 @@ def topo_classes(spec):
         tags.add("same_span_dst_gap_pair")
     if "upi" in O:
         tags.add("island_pattern")
+    if any(n.startswith("jd") for n in O):
+        tags.add("draft_job")
     wins = sorted(window_utc(spec, up) for up in ups)
     for (a0, a1), (b0, b1) in zip(wins, wins[1:]):
         if b0 > a1 + timedelta(hours=14):
